@@ -9,7 +9,7 @@
    c12_spec_failures  : specification oracle on the implementation's sizes only
                         (never above the bound; no growth between successive
                         equal phases), failure code = 100 * component + kind. *)
-From IV Require Import Base.Word Model.Unwrapper Model.MemBound.
+From IV Require Import Base.Word Model.Unwrapper Model.MemBound Model.MemBoundClose.
 Open Scope Z_scope.
 
 Definition entry := (Z * list Z * list Z)%type.
@@ -74,16 +74,21 @@ Definition dec_sl (st : sl) (opc : Z) (a : list Z) : sl :=
   if opc =? 1 then sl_step st (SlAdd (arg 0 a)) else sl_step st (SlReport (arg 0 a)).
 Definition dec_sr (st : Z * Z) (opc : Z) (a : list Z) : Z * Z :=
   if opc =? 1 then sr_step 5 st SrSenderReport else sr_step 5 st (SrXR (arg 0 a)).
-Definition dec_si (st : si) (opc : Z) (a : list Z) : si :=
-  if opc =? 1 then si_step st (SiBind (arg 0 a)) else si_step st (SiUnbind (arg 0 a)).
+(* stats interceptor: the model with Close (opcode 3); without Close it is si_step (C12_stats_close_refines) *)
+Definition dec_si (st : sic) (opc : Z) (a : list Z) : sic :=
+  if opc =? 1 then sic_step st (ScBind (arg 0 a))
+  else if opc =? 3 then sic_step st ScClose else sic_step st (ScUnbind (arg 0 a)).
 Definition dec_jb (st : jb) (opc : Z) (a : list Z) : jb :=
-  if opc =? 1 then jb_step st (JbRead (arg 0 a)) else jb_step st JbUnbind.
+  if opc =? 1 then jbc_step st (JcRead (arg 0 a))
+  else if opc =? 3 then jbc_step st JcClose else jbc_step st JcUnbind.
 Definition dec_ff (numMedia : Z) (st : list (Z * Z)) (opc : Z) (a : list Z) : list (Z * Z) :=
   if opc =? 1 then ff_step numMedia st (FfBind (arg 0 a))
   else if opc =? 2 then ff_step numMedia st (FfUnbind (arg 0 a))
   else ff_step numMedia st (FfWrite (arg 0 a)).
-Definition dec_fq (st : Z) (opc : Z) (a : list Z) : Z :=
-  if opc =? 1 then fq_step st FqEnq else fq_step st (FqRelease (arg 0 a)).
+Definition dec_fq (st : Z * bool) (opc : Z) (a : list Z) : Z * bool :=
+  if opc =? 1 then fqc_step_fixed st FcEnq
+  else if opc =? 3 then fqc_step_fixed st FcClose
+  else fqc_step_fixed st (FcRelease (arg 0 a)).
 Definition dec_h (st : hist) (opc : Z) (a : list Z) : hist :=
   if opc =? 1 then h_step true st (HAdd (arg 0 a) (arg 1 a) (argb 2 a) (arg 3 a))
   else if opc =? 2 then h_step true st (HAckTw (arg 0 a) (argb 1 a))
@@ -119,11 +124,11 @@ Definition model_ok (c : c12case) : bool :=
   else if comp =? 6 then run_cmp (fun l _ a => lru_add 250 l (arg 0 a)) lru_sizes [] tr
   else if comp =? 7 then run_cmp dec_sl sl_sizes sl_init_st tr
   else if comp =? 8 then run_cmp dec_sr sr_sizes (0, 0) tr
-  else if comp =? 9 then run_cmp dec_si si_sizes si_init tr
+  else if comp =? 9 then run_cmp dec_si sic_sizes sic_init tr
   else if comp =? 10 then run_cmp dec_jb jb_sizes jb_init tr
   else if comp =? 11 then run_cmp (dec_ff (arg 0 cfg)) ff_sizes [] tr
   else if comp =? 12 then run_rc (arg 0 cfg) (false, []) tr
-  else if (comp =? 13) || (comp =? 14) then run_cmp dec_fq (fun n => [n]) 0 tr
+  else if (comp =? 13) || (comp =? 14) then run_cmp dec_fq (fun st => [fst st]) (0, false) tr
   else if comp =? 15 then run_cmp dec_h h_sizes h_init tr
   else false.
 
